@@ -8,7 +8,7 @@ CLAIMED = {
  "C01": ("property-based testing (proptest, seeded, sharded) against a definition-level bit-vector model + exhaustive enumeration of small sizes; aliased operands and operands placed at different offsets modulo 16 bytes; both build profiles",
          "Generated-input search: all 28 syntactic forms of NOT/AND/OR/XOR are executed on generated pairs of tables (n up to 12/14, dense, word-structured, sparse, related pairs) and on ALL pairs for n<=2 (quick) / n<=3 (thorough), for Lut and every LutN alias, and compared with the Boolean definition on every assignment. Exploration: absence of a counterexample among the cases explored, not a proof.",
          "Trusts value() and from_blocks()/set_bit() as observation/loading channel and the harness model (model.rs).", "DESIGN.md §4 C01"),
- "C02": ("stateful model-based property testing: generated API-call histories with an invariant checked after every step; exhaustive single steps for n<=3; libFuzzer history target (thorough)",
+ "C02": ("stateful model-based property testing: generated API-call histories (constructors, conversions, operators, transforms, iterator adaptors and consumers) with an invariant checked after every step; exhaustive single steps for n<=3; libFuzzer history target (thorough)",
          "Histories of public API calls over a pool of tables are interpreted on the library; after every step the written slot must be well formed (block count, no bit >= 2^n) and ==, !=, cmp, partial_cmp, Hash must agree with equality of the functions read through value(), against every slot and a from_blocks twin; HashSet/BTreeSet sizes at the end. Exploration over histories (inductive step + long sequences).",
          "Trusts value() as the functional view; what operations compute is judged by other properties.", "DESIGN.md §4 C02"),
  "C03": ("property-based testing against the definition (bit-exchange / cofactor definitions evaluated per assignment) + exhaustive n<=3/4; all index regimes; top-variable pairs on 15..20-variable tables; libFuzzer target transforms (thorough)",
